@@ -47,12 +47,16 @@ Definition norm_pa (pa : paddr) : paddr :=
 (** the value a peer sees: durations quantised to the wire unit, max_idle_timeout raised to
     MinRemoteIdleTimeout, max_udp_payload_size 0 read as "no limit", unusable addresses dropped,
     server-only parameters absent when the client marshals *)
+(** max_idle_timeout as the peer sees it: whole milliseconds; 0 = none; otherwise at least MinRemoteIdleTimeout *)
+Definition norm_mit (d : Z) : Z :=
+  if d / TP_Millisecond =? 0 then 0 else Z.max TP_MinRemoteIdleTimeout (d / TP_Millisecond * TP_Millisecond).
+
 Definition tp_norm (pers : perspective) (p : tparams) : tparams :=
   mkTP (tp_imsd_bl p) (tp_imsd_br p) (tp_imsd_uni p) (tp_imd p)
        (tp_mad p / TP_Millisecond * TP_Millisecond) (tp_ade p) (tp_dam p)
        (if tp_mups p =? 0 then TP_MaxByteCount else tp_mups p)
        (tp_mus p) (tp_mbs p)
-       (Z.max TP_MinRemoteIdleTimeout (tp_mit p / TP_Millisecond * TP_Millisecond))
+       (norm_mit (tp_mit p))
        (if is_server pers then option_map norm_pa (tp_pa p) else None)
        (if is_server pers then tp_odcid p else [])
        (tp_iscid p)
@@ -162,7 +166,8 @@ Lemma read_numeric_val id v p :
    else if id =? TP_ID_mus then
      if TP_MaxStreamCount <? v then Err E_TP_STREAMS_UNI 0 else Ok (set_mus v p)
    else if id =? TP_ID_mit then
-     Ok (set_mit (Z.max TP_MinRemoteIdleTimeout (to_i64 (v * TP_Millisecond))) p)
+     if v =? 0 then Ok (set_mit 0 p)
+     else Ok (set_mit (Z.max TP_MinRemoteIdleTimeout (sat_duration v TP_Millisecond)) p)
    else if id =? TP_ID_mups then
      if v <? 1200 then Err E_TP_MUPS 0 else Ok (set_mups v p)
    else if id =? TP_ID_ade then
@@ -173,8 +178,7 @@ Lemma read_numeric_val id v p :
      if v <? 2 then Err E_TP_ACIL 0 else Ok (set_acil v p)
    else if id =? TP_ID_mdfs then Ok (set_mdfs v p)
    else if id =? TP_ID_minad then
-     let mad := to_i64 (v * TP_Microsecond) in
-     Ok (set_minad (Some (if mad <? 0 then maxInt64 else mad)) p)
+     Ok (set_minad (Some (sat_duration v TP_Microsecond)) p)
    else Err E_TP_BUG id).
 Proof.
   intros Hv. unfold read_numeric.
@@ -262,18 +266,26 @@ Proof.
   destruct (Z.leb_spec x 9223372036854775807); lia.
 Qed.
 
+Lemma sat_duration_small v u : 0 < u -> 0 <= v -> v * u <= maxInt64 -> sat_duration v u = v * u.
+Proof.
+  intros Hu Hv H. unfold sat_duration.
+  destruct (Z.ltb_spec (maxInt64 / u) v) as [L|L]; [|reflexivity].
+  exfalso. assert (maxInt64 / u * u <= maxInt64) by (pose proof (Z.mul_div_le maxInt64 u Hu); lia).
+  assert (v * u <= maxInt64 -> v <= maxInt64 / u) by (intros; apply Z.div_le_lower_bound; lia). lia.
+Qed.
+
 Lemma run_mit pers s d rest : 0 <= d <= maxInt64 ->
   tp_run pers s (enc_varint_param TP_ID_mit (d / TP_Millisecond) ++ rest) =
-  tp_run pers (upd (set_mit (Z.max TP_MinRemoteIdleTimeout (d / TP_Millisecond * TP_Millisecond)))
-                   (add_id TP_ID_mit s)) rest.
+  tp_run pers (upd (set_mit (norm_mit d)) (add_id TP_ID_mit s)) rest.
 Proof.
   intros Hd.
   assert (Hv : vwf (d / TP_Millisecond)) by (unfold vwf, TP_Millisecond, maxVarInt8, maxInt64 in *; lia).
-  rewrite (run_numeric pers s TP_ID_mit _ rest
-             (set_mit (Z.max TP_MinRemoteIdleTimeout (d / TP_Millisecond * TP_Millisecond)) (st_p s)));
+  rewrite (run_numeric pers s TP_ID_mit _ rest (set_mit (norm_mit d) (st_p s)));
     [reflexivity|cbn; tauto|vwf_id|exact Hv|].
   rewrite read_numeric_val by exact Hv. tp_consts. cbn [Z.eqb Pos.eqb].
-  rewrite to_i64_small; [reflexivity|]. unfold TP_Millisecond, maxInt64 in *. lia.
+  unfold norm_mit. destruct (d / TP_Millisecond =? 0); [reflexivity|].
+  rewrite sat_duration_small; [reflexivity | reflexivity | unfold TP_Millisecond in *; lia |].
+  unfold TP_Millisecond, maxInt64 in *. lia.
 Qed.
 
 (** the optional ones: [c] is Marshal's condition *)
@@ -361,10 +373,9 @@ Proof.
   rewrite (run_numeric pers s TP_ID_minad _ rest
              (set_minad (Some (m / TP_Microsecond * TP_Microsecond)) (st_p s)));
     [reflexivity|cbn; tauto|vwf_id|exact Hv|].
-  rewrite read_numeric_val by exact Hv. tp_consts. cbn [Z.eqb Pos.eqb]. cbv zeta.
-  rewrite to_i64_small by (unfold TP_Microsecond, maxInt64 in *; lia).
-  destruct (Z.ltb_spec (m / TP_Microsecond * TP_Microsecond) 0); [|reflexivity].
-  unfold TP_Microsecond in *. lia.
+  rewrite read_numeric_val by exact Hv. tp_consts. cbn [Z.eqb Pos.eqb].
+  rewrite sat_duration_small; [reflexivity | reflexivity | unfold TP_Microsecond in *; lia |].
+  unfold TP_Microsecond, maxInt64 in *. lia.
 Qed.
 
 (** the two empty-valued flags *)
